@@ -45,6 +45,78 @@ def programs(ctx, n, knobs=None, prefix="Q"):
         out.append(p)
     return out
 
+# ----------------------------------------------------------------- condition forms x comparison operators (boundary grid)
+
+CMP = {"<": lambda a, b: a < b, "<=": lambda a, b: a <= b, ">": lambda a, b: a > b, ">=": lambda a, b: a >= b,
+       "==": lambda a, b: a == b, "!=": lambda a, b: a != b}
+
+
+def grid_programs(seed):
+    """every conditional / loop form with a condition that is directly a comparison of two Int (and Float) locals, at
+    a < b, a == b, a > b. The compiler fuses comparison and jump for these; the expected output follows from the
+    meaning of the form (Python), not from the implementation. One program per (operand type, relation)."""
+    out = []
+    for ty, vals in (("Int", [(2, 5), (4, 4), (7, 3)]), ("Float", [(2.5, 5.0), (4.0, 4.0), (7.5, 3.0)])):
+        for k, (a, b) in enumerate(vals):
+            mod = "CG%s%s%d" % (seed, ty[0], k)
+            L = ["module %s" % mod, "  def run(a: %s, b: %s): nil" % (ty, ty)]
+            want = []
+            n = 0
+            for op, f in CMP.items():
+                if ty == "Float" and op in ("==", "!="):
+                    continue          # known finding C08-float-eq-emits-equal-int: `==` on Float-typed locals kills the VM
+                c = f(a, b)
+                cond = "a %s b" % op
+                n += 1
+                # if / unless with else
+                L += ["    if %s" % cond, '      println("%d i+")' % n, "    else", '      println("%d i-")' % n, "    end"]
+                want.append("%d i%s" % (n, "+" if c else "-"))
+                L += ["    unless %s" % cond, '      println("%d u+")' % n, "    else", '      println("%d u-")' % n, "    end"]
+                want.append("%d u%s" % (n, "-" if c else "+"))
+                # modifiers
+                L += ['    println("%d mi") if %s' % (n, cond), '    println("%d mu") unless %s' % (n, cond)]
+                want += (["%d mi" % n] if c else []) + ([] if c else ["%d mu" % n])
+                # while / until: at most one iteration (the body breaks the condition by leaving through `break`)
+                L += ["    while %s" % cond, '      println("%d w")' % n, "      break", "    end"]
+                want += ["%d w" % n] if c else []
+                L += ["    until %s" % cond, '      println("%d t")' % n, "      break", "    end"]
+                want += [] if c else ["%d t" % n]
+                # do … while / do … until: the body runs once, then the condition decides about a second round
+                L += ["    var k%d = 0" % n, "    do", "      k%d += 1" % n, '      println("%d dw")' % n, "      break if k%d > 1" % n,
+                      "    end while %s" % cond]
+                want += ["%d dw" % n] * (2 if c else 1)
+                L += ["    var j%d = 0" % n, "    do", "      j%d += 1" % n, '      println("%d du")' % n, "      break if j%d > 1" % n,
+                      "    end until %s" % cond]
+                want += ["%d du" % n] * (1 if c else 2)
+                # the value of the comparison itself and its negation
+                L += ['    println("%d v " + (%s).inspect + " " + (!(%s)).inspect)' % (n, cond, cond)]
+                want.append("%d v %s %s" % (n, "true" if c else "false", "false" if c else "true"))
+            L += ["    nil", "  end", "end", "%s.run(%s, %s)" % (mod, a, b)]
+            out.append(("\n".join(L) + "\n", "\n".join(want) + "\n", "%s a=%s b=%s" % (ty, a, b)))
+    return out
+
+
+def run_grid(ctx):
+    progs = grid_programs(ctx.seed)
+    res = vlib.run_programs([{"id": "cg%d" % i, "src": src, "timeout_ms": 8000} for i, (src, _, _) in enumerate(progs)])
+    ok = True
+    for (src, want, what), a in zip(progs, res):
+        ctx.case(("grid", what), sample={"grid": what, "outcome": a["outcome"]})
+        ctx.stat("grid:" + a["outcome"])
+        if a["outcome"] == "value" and a["stdout"] == want:
+            continue
+        got = a["stdout"].splitlines()
+        exp = want.splitlines()
+        diff = next((("line %d: expected %r, got %r" % (i + 1, e, g)) for i, (e, g) in enumerate(zip(exp, got + [None] * len(exp))) if e != g),
+                    "output has %d lines, expected %d" % (len(got), len(exp)))
+        if ctx.violation("output-differs", {"program": src, "grid": what},
+                         "condition forms x comparison operators (%s): outcome %s %s; %s (labels: i=if u=unless mi/mu=modifier if/unless "
+                         "w=while t=until dw/du=do-while/do-until v=value; number = operator in < <= > >= == !=)"
+                         % (what, a["outcome"], (a.get("panic") or "")[:80], diff)):
+            ok = False
+    ctx.obligation("every conditional and loop form x every comparison operator at a<b, a==b, a>b (Int and Float): %d programs "
+                   "print what the forms mean" % len(progs), ok, "search")
+
 
 def run(ctx):
     ctx.rule = ("type-directed MiniElk programs (nested loops, labelled break/continue, return, throw/catch with "
@@ -52,12 +124,17 @@ def run(ctx):
                 "reference prints at least one line")
     ctx.prove("ElkVerif.Props.C14")
     if ctx.replay:
-        progs = [json.load(open(ctx.replay))["input"]["sexpr"]]
+        inp = json.load(open(ctx.replay))["input"]
+        if "grid" in inp:
+            run_grid(ctx)
+            return
+        progs = [inp["sexpr"]]
     else:
         progs = mini_common.corpus_programs("C14") + programs(ctx, ctx.n(400, 12000))
     recs = mini_common.compare_programs(ctx, progs, "control-flow programs")
     if not ctx.replay:
         replay_findings(ctx)
+        run_grid(ctx)
     for r in recs:
         ctx.case(r["src"], nontrivial=bool(r["model_out"]),
                  sample={"program": r["src"][:600], "reference": r["model"], "stdout": r["model_out"][:200]})
